@@ -31,6 +31,9 @@
 EXTENDS Integers, Sequences, FiniteSets, TLC, SequencesExt
 
 CONSTANTS MaxIno, MaxSteps, FIX_BOUNDARY, FIX_REKEY, FIX_ENOENT,
+          REUSE_EARLY,   \* a new directory may be removed, and a regular file made, before the reader has handled its Create
+                         \* (outside C19's quantifier - "each followed by delivery of its Create event" - but inside C02's)
+          FIX_ONLYDIR,   \* D12 repaired: a new directory is registered with IN_ONLYDIR|IN_DONT_FOLLOW (something else may have the name by now)
           FIX_PATHKEY,   \* D13 repaired: dropping a watch deletes the path key only if it still belongs to that watch
           FIX_RMALL,     \* D11 repaired: Remove releases every kernel watch of the tree even if inotify_rm_watch fails for one of them
           FIX_MOVED      \* D10 repaired: a directory moved inside the tree is not looked up by path again (it is watched already)
@@ -40,13 +43,14 @@ StrPre(x, y) == x = y \/ (y = "a" /\ x = "ab")        \* the string x starts wit
 Roots == {1, 2}
 
 VARIABLES parent, nm, alive, nextIno,      \* the directory tree (inodes 1, 2: the top-level directories "a", "ab")
+          files,                           \* inodes that are regular files (created under a name a directory just had)
           marks, nextWd, kq,               \* kernel: marks [wd, ino]; queue of records
           wdT, pathT,                      \* w.watches.wd as a set of [wd, path], w.watches.path as a set of [path, wd]
           ck, nextCk,                      \* rename cookies: cookie -> name recorded at MOVED_FROM
           added,                           \* roots the user watches recursively
           bad,                             \* ghost: what went wrong
           steps
-vars == <<parent, nm, alive, nextIno, marks, nextWd, kq, wdT, pathT, ck, nextCk, added, bad, steps>>
+vars == <<parent, nm, alive, nextIno, files, marks, nextWd, kq, wdT, pathT, ck, nextCk, added, bad, steps>>
 
 RECURSIVE TruePath(_)
 TruePath(i) == IF parent[i] = 0 THEN <<nm[i]>> ELSE Append(TruePath(parent[i]), nm[i])
@@ -65,12 +69,13 @@ PrefixRaw(p, q) == /\ Len(q) >= 1 /\ Len(p) >= Len(q)
 Rewrite(p, old, new) == IF SubSeq(p, 1, Len(old)) = old THEN new \o SubSeq(p, Len(old) + 1, Len(p)) ELSE <<"?">>
 
 Init == /\ parent = [i \in 1..MaxIno |-> 0] /\ nm = [i \in 1..MaxIno |-> IF i = 2 THEN "ab" ELSE "a"]
-        /\ alive = {1, 2} /\ nextIno = 3
+        /\ alive = {1, 2} /\ nextIno = 3 /\ files = {}
         /\ marks = {} /\ nextWd = 1 /\ kq = <<>> /\ wdT = {} /\ pathT = {}
         /\ ck = [c \in {} |-> <<>>] /\ nextCk = 1 /\ added = {} /\ bad = {} /\ steps = 0
 
 Tick == steps < MaxSteps /\ steps' = steps + 1
 Children(i) == {j \in alive : parent[j] = i}
+DirChildren(i) == Children(i) \ files
 NoPendingCreate == \A k \in 1..Len(kq) : kq[k].kind # "create"
 Rec(wd, kind, n, c, tn) == [wd |-> wd, kind |-> kind, n |-> n, ck |-> c, tn |-> tn]
 
@@ -80,6 +85,7 @@ Rec(wd, kind, n, c, tn) == [wd |-> wd, kind |-> kind, n |-> n, ck |-> c, tn |-> 
 Register(st, path) ==
   LET i == Resolve(path) IN
   IF i = 0 THEN [st EXCEPT !.err = "ENOENT"]
+  ELSE IF i \in files /\ FIX_ONLYDIR THEN [st EXCEPT !.err = "ENOTDIR"]        \* benign, like ENOENT
   ELSE
   LET have  == {r.wd : r \in {r \in st.pathT : r.path = path}}
       ok    == have # {}
@@ -104,10 +110,10 @@ Commit(st) == /\ marks' = st.marks /\ nextWd' = st.nextWd /\ kq' = st.kq /\ wdT'
 
 \* Add(root + "/..."): WalkDir registers every directory of the tree (parents before children)
 RECURSIVE Walk(_, _)
-Walk(st, todo) == IF todo = <<>> THEN st ELSE Walk(Register(st, TruePath(Head(todo))), Tail(todo) \o SetToSeq(Children(Head(todo))))
+Walk(st, todo) == IF todo = <<>> THEN st ELSE Walk(Register(st, TruePath(Head(todo))), Tail(todo) \o SetToSeq(DirChildren(Head(todo))))
 AddRec(r) == /\ Tick /\ r \in Roots \ added
              /\ Commit(Walk(St, <<r>>)) /\ added' = added \cup {r}
-             /\ UNCHANGED <<parent, nm, alive, nextIno, ck, nextCk, bad>>
+             /\ UNCHANGED <<parent, nm, alive, nextIno, files, ck, nextCk, bad>>
 
 \* Remove(root + "/..."): removePath + inotify_rm_watch of everything it returned
 RemoveRec(r) ==
@@ -130,29 +136,37 @@ RemoveRec(r) ==
                 /\ kq' = kq \o SetToSeq({Rec(m.wd, "ignored", "", 0, <<>>) : m \in {m \in marks : m.wd \in done}})
           /\ bad' = bad
   /\ added' = added \ {r}
-  /\ UNCHANGED <<parent, nm, alive, nextIno, nextWd, ck, nextCk>>
+  /\ UNCHANGED <<parent, nm, alive, nextIno, files, nextWd, ck, nextCk>>
 
 ---------------------------------------------------------------------------
 \* The file system (records carry, as a ghost, the true name of the object when the operation was made)
 Mkdir(p, n) ==
-  /\ Tick /\ NoPendingCreate /\ nextIno <= MaxIno /\ p \in alive /\ n \in Comp /\ \A j \in Children(p) : nm[j] # n
+  /\ Tick /\ NoPendingCreate /\ nextIno <= MaxIno /\ p \in alive \ files /\ n \in Comp /\ \A j \in Children(p) : nm[j] # n
   /\ parent' = [parent EXCEPT ![nextIno] = p] /\ nm' = [nm EXCEPT ![nextIno] = n]
   /\ alive' = alive \cup {nextIno} /\ nextIno' = nextIno + 1
   /\ kq' = IF WdOfIn(marks, p) # 0 THEN Append(kq, Rec(WdOfIn(marks, p), "create", n, 0, Append(TruePath(p), n))) ELSE kq
+  /\ UNCHANGED <<files, marks, nextWd, wdT, pathT, ck, nextCk, added, bad>>
+
+\* touch: a regular file under a free name of a directory (a record without IN_ISDIR: the reader does not register it)
+Touch(p, n) ==
+  /\ Tick /\ (NoPendingCreate \/ REUSE_EARLY) /\ nextIno <= MaxIno /\ p \in alive \ files /\ n \in Comp /\ \A j \in Children(p) : nm[j] # n
+  /\ parent' = [parent EXCEPT ![nextIno] = p] /\ nm' = [nm EXCEPT ![nextIno] = n]
+  /\ alive' = alive \cup {nextIno} /\ files' = files \cup {nextIno} /\ nextIno' = nextIno + 1
+  /\ kq' = IF WdOfIn(marks, p) # 0 THEN Append(kq, Rec(WdOfIn(marks, p), "createfile", n, 0, Append(TruePath(p), n))) ELSE kq
   /\ UNCHANGED <<marks, nextWd, wdT, pathT, ck, nextCk, added, bad>>
 
 Rmdir(i) ==
-  /\ Tick /\ NoPendingCreate /\ i \in alive \ Roots /\ Children(i) = {}
+  /\ Tick /\ (NoPendingCreate \/ REUSE_EARLY) /\ i \in alive \ (Roots \cup files) /\ Children(i) = {}
   /\ alive' = alive \ {i}
   /\ LET p == parent[i]
          k1 == IF WdOfIn(marks, p) # 0 THEN Append(kq, Rec(WdOfIn(marks, p), "delete", nm[i], 0, TruePath(i))) ELSE kq
          k2 == IF WdOfIn(marks, i) # 0 THEN k1 \o <<Rec(WdOfIn(marks, i), "delself", "", 0, TruePath(i)), Rec(WdOfIn(marks, i), "ignored", "", 0, <<>>)>> ELSE k1
      IN kq' = k2 /\ marks' = {m \in marks : m.ino # i}
-  /\ UNCHANGED <<parent, nm, nextIno, nextWd, wdT, pathT, ck, nextCk, added, bad>>
+  /\ UNCHANGED <<parent, nm, nextIno, files, nextWd, wdT, pathT, ck, nextCk, added, bad>>
 
 \* mv inside one tree: onto a free name of a directory that is not below the moved one
 Rename(i, np, n) ==
-  /\ Tick /\ NoPendingCreate /\ i \in alive \ Roots /\ np \in alive /\ ~Under(np, i) /\ RootOf(np) = RootOf(i)
+  /\ Tick /\ NoPendingCreate /\ i \in alive \ (Roots \cup files) /\ np \in alive \ files /\ ~Under(np, i) /\ RootOf(np) = RootOf(i)
   /\ n \in Comp /\ \A j \in Children(np) : nm[j] # n
   /\ parent' = [parent EXCEPT ![i] = np] /\ nm' = [nm EXCEPT ![i] = n]
   /\ LET op == parent[i]
@@ -161,11 +175,11 @@ Rename(i, np, n) ==
          k3 == IF WdOfIn(marks, i) # 0 THEN Append(k2, Rec(WdOfIn(marks, i), "moveself", "", 0, <<>>)) ELSE k2
      IN kq' = k3
   /\ nextCk' = nextCk + 1
-  /\ UNCHANGED <<alive, nextIno, marks, nextWd, wdT, pathT, ck, added, bad>>
+  /\ UNCHANGED <<alive, nextIno, files, marks, nextWd, wdT, pathT, ck, added, bad>>
 
 \* rename(2) of a directory OVER an empty directory of the same tree: the victim's inode goes (after the move records)
 RenameOver(i, j) ==
-  /\ Tick /\ NoPendingCreate /\ i \in alive \ Roots /\ j \in alive \ Roots /\ i # j /\ Children(j) = {}
+  /\ Tick /\ NoPendingCreate /\ i \in alive \ (Roots \cup files) /\ j \in alive \ (Roots \cup files) /\ i # j /\ Children(j) = {}
   /\ ~Under(j, i) /\ ~Under(i, j) /\ RootOf(j) = RootOf(i)
   /\ parent' = [parent EXCEPT ![i] = parent[j]] /\ nm' = [nm EXCEPT ![i] = nm[j]]
   /\ alive' = alive \ {j}
@@ -176,7 +190,7 @@ RenameOver(i, j) ==
          k4 == IF WdOfIn(marks, j) # 0 THEN k3 \o <<Rec(WdOfIn(marks, j), "delself", "", 0, TruePath(j)), Rec(WdOfIn(marks, j), "ignored", "", 0, <<>>)>> ELSE k3
      IN kq' = k4 /\ marks' = {m \in marks : m.ino # j}
   /\ nextCk' = nextCk + 1
-  /\ UNCHANGED <<nextIno, nextWd, wdT, pathT, ck, added, bad>>
+  /\ UNCHANGED <<nextIno, files, nextWd, wdT, pathT, ck, added, bad>>
 
 ---------------------------------------------------------------------------
 \* Reader: handleEvent for one record (all watches of this model are recursive)
@@ -201,7 +215,7 @@ Handle ==
             \* reported unless the parent is watched too (which already reports it); the name is the table's
             /\ bad' = IF (\E x \in pathT : x.path = SubSeq(watch.path, 1, Len(watch.path) - 1)) \/ name = r.tn THEN bad ELSE bad \cup {"wrong_name"}
             /\ UNCHANGED <<marks, nextWd, ck>>
-       [] r.kind \in {"delete", "movedfrom"} ->
+       [] r.kind \in {"delete", "movedfrom", "createfile"} ->
             /\ bad' = IF name = r.tn THEN bad ELSE bad \cup {"wrong_name"}
             /\ ck' = IF r.kind = "movedfrom" THEN (r.ck :> name) @@ ck ELSE ck
             /\ kq' = Tail(kq) /\ UNCHANGED <<marks, nextWd, wdT, pathT>>
@@ -223,10 +237,11 @@ Handle ==
                /\ bad' = (IF name = r.tn THEN bad ELSE bad \cup {"wrong_name"})
                          \cup (IF st1.err = "ENOENT" /\ ~FIX_ENOENT THEN {"spurious_error"} ELSE {})
                /\ ck' = ck
-  /\ UNCHANGED <<parent, nm, alive, nextIno, nextCk, added, steps>>
+  /\ UNCHANGED <<parent, nm, alive, nextIno, files, nextCk, added, steps>>
 
 Next == (\E r \in Roots : AddRec(r) \/ RemoveRec(r))
         \/ (\E p \in 1..MaxIno, n \in Comp : Mkdir(p, n))
+        \/ (\E p \in 1..MaxIno, n \in Comp : Touch(p, n))
         \/ (\E i \in 1..MaxIno : Rmdir(i))
         \/ (\E i, np \in 1..MaxIno, n \in Comp : Rename(i, np, n))
         \/ (\E i, j \in 1..MaxIno : RenameOver(i, j))
@@ -242,12 +257,12 @@ NoSpuriousError == "spurious_error" \notin bad
 \* Remove of a watched root finds it
 RemoveWorks == "remove_failed" \notin bad
 \* C19: with the queue drained every directory of a watched tree is marked and listed under its true current path ...
-Covered == Quiet => \A i \in alive : RootOf(i) \in added =>
+Covered == Quiet => \A i \in alive \ files : RootOf(i) \in added =>
                       /\ WdOfIn(marks, i) # 0
                       /\ \E x \in wdT : x.wd = WdOfIn(marks, i) /\ x.path = TruePath(i)
                       /\ \E x \in pathT : x.wd = WdOfIn(marks, i) /\ x.path = TruePath(i)
 \* ... and nothing else is: no mark outside the watched trees, no row without a mark, one row per watch
-OwnTreeOnly == Quiet => /\ \A m \in marks : m.ino \in alive /\ RootOf(m.ino) \in added
+OwnTreeOnly == Quiet => /\ \A m \in marks : m.ino \in alive \ files /\ RootOf(m.ino) \in added
                         /\ {x.wd : x \in wdT} = {m.wd : m \in marks}
                         /\ Cardinality(wdT) = Cardinality(marks) /\ Cardinality(pathT) = Cardinality(marks)
 =============================================================================
